@@ -299,7 +299,37 @@ CHECKS = {
 PENDING = {}
 
 
+# Tie by regeneration (harness/py2coq.py): which functions' control flow is regenerated from the source on every run
+# and proved equal to the model functions (Props/CxxTie.v).  Appended to the claim of the property.
+TIES = {
+    "C03": ("Props/C03Tie.v", 3, "NativeVersion._order, _version_cmp_string, _version_cmp_part",
+            "the four regex leaves and int()"),
+    "C06": ("Props/C06Tie.v", 9, "ArMember.read, readline, readlines, seek, tell (method mode: the private attributes "
+            "are threaded as state, returned on exceptions too; guard: __fp and __fname not both None, established by "
+            "from_file and proved invariant)", "seek/read/readline/tell/open of the underlying file object"),
+    "C16": ("Props/C16Tie.v", 4, "globs_to_re (pattern text and both flags, FormatError included)",
+            "re.escape (table regenerated from the interpreter) and re.compile as identity on the text"),
+    "C17": ("Props/C17Tie.v", 14, "_LineBased.from_str/to_str (+ nested helper), _SpaceSeparated.from_str/to_str, "
+            "format_multiline(_lines), parse_multiline(_as_lines), _single_line, License.__new__/from_str/to_str",
+            "str.strip/split/splitlines/startswith/join (Lib/PyStr.v instantiated as the model does), the \\s leaf, islice"),
+    "C18": ("Props/C18Tie.v", 5, "patches_from_ed_script (shared iterator, for/else, yield; str and bytes flavours) "
+            "and patch_lines", "the command regex leaf, int() on digit runs, slice assignment"),
+}
+TIE_TEXT = ("  TIE BY REGENERATION ({file}, {n} more theorems, all Closed under the global context): the control flow of "
+            "{funs} is regenerated from the current source on every run by harness/py2coq.py (coq/Gen/Tr*.v) and proved, "
+            "for ALL inputs, to return exactly what the model functions above return (no exception the model does not "
+            "have, fuel never exhausted); hand-modelled inside: {prims}.")
+TIE_NOTE = ("  The translator harness/py2coq.py (rendering of the Python subset, variable types given in the spec) is "
+            "trusted for the tie theorems; a failed translation or tie proof is a broken proof obligation and is "
+            "reported like one.")
+
+
 def main():
+    for pid, (f, n, funs, prims) in TIES.items():
+        c = CHECKS[pid]
+        c["text"] += TIE_TEXT.format(file=f, n=n, funs=funs, prims=prims)
+        c["note"] += TIE_NOTE
+        c["technique"] += " + control flow regenerated from the source (py2coq) with proved equality to the model"
     props = [json.loads(l) for l in open(os.path.join(HERE, "properties.jsonl"))]
     checks = []
     na = []
@@ -338,7 +368,8 @@ def main():
             "serves_properties": sorted(CHECKS),
             "kind_free_text": "Coq 8.16.1 theorems about an executable Gallina model (coq/), re-checked on every run; "
                               "model tied to /repo by differential evaluation inside Coq of generated cases "
-                              "(harness/), plus tables regenerated from the source (coq/Gen)",
+                              "(harness/), plus tables AND the control flow of selected functions regenerated from the source "
+                              "(coq/Gen; harness/extract.py, harness/py2coq.py) with proved equality to the model",
         }],
         "checks": checks,
         "notes": "fix: commits in /repo and recorded findings are listed in /verif/known_findings.json; "
